@@ -25,7 +25,8 @@ claim("C04", "DESIGN.md 5 C04",
       "an up-switch point not above the wanted layer, or following a new top layer; an in-order packet above the selection is withheld (nothing emitted, recorded by the map); limitSid forces sid 0 at the next keyframe. "
       "adjustLayer moves only the wanted layers by one step within the seen range; updateRate's value is always within [minLossRate, maxLossRate] with no 64-bit overflow.",
       "Assumed: atomics are modelled as plain accesses within one function body (sequential), estimator readings arbitrary, pion TID/SID field widths. "
-      "Not decided: lost updates of the transition bookkeeping when Write and adjustLayer race; replaceTracks' part (webclient.go) is not yet under contract.")
+      "replaceTracks' deferred update of the word (limitSid installed as requested, wanted spatial layer forced to 0, selection untouched, INV kept) is verified too. "
+      "Not decided: lost updates of the transition bookkeeping when Write and adjustLayer race.")
 
 claim("C05", "DESIGN.md 5 C05",
       "packetcache New, Store, get, Get, GetAt, Last, Keyframe, resize, Resize, ResizeCond, entry.length/marker: Store puts exactly the packet (seqno, timestamp, length, marker, every byte) in slot old(tail) and nothing else changes; "
